@@ -51,7 +51,31 @@ Ltac same :=
   end;
   reflexivity.
 
-Ltac by_norm := norm_hand; norm_gen; same.
+(* fallback when the two sides are not syntactically the same after normalisation (see
+   Proofs/FfgRoutinesEq.v): carries / borrows and comparisons made explicit and decided case by
+   case, under a time limit (the four-limb routines have many conditionals) *)
+Ltac norm_consts :=
+  cbv beta iota zeta;
+  rewrite ?Z.eqb_refl;
+  change (1 =? 0) with false; change (0 =? 1) with false;
+  cbv beta iota zeta delta [negb].
+Ltac step_if :=
+  match goal with
+  | |- context [if ?c then _ else _] =>
+      lazymatch c with
+      | context [if _ then _ else _] => fail
+      | true => fail
+      | false => fail
+      | _ => let E := fresh "E" in destruct c eqn:E
+      end
+  end.
+Ltac semantic :=
+  cbv beta iota zeta delta [add64 sub64 fst snd];
+  rewrite ?Z.geb_leb, ?Z.leb_antisym, ?Z.gtb_ltb;
+  timeout 90 (repeat (norm_consts; step_if));
+  norm_consts; reflexivity.
+
+Ltac by_norm := norm_hand; norm_gen; first [ same | timeout 120 semantic | fail 1 "generated and hand-written routine differ" ].
 
 Ltac destruct_el x := destruct x as [[[? ?] ?] ?].
 
